@@ -40,48 +40,47 @@ fn kc_ascii_bitmap_set_get() {
     }
 }
 
-/// reference decoder (written from the property: decode every valid, non-protected %XY and nothing else)
-fn spec_requote(q: &Quoter, val: &[u8]) -> (Vec<u8>, bool) {
-    let mut out = Vec::new();
-    let mut any = false;
-    let mut i = 0;
-    while i < val.len() {
-        if val[i] == b'%' && i + 2 < val.len() + 0 && i + 2 <= val.len() - 1 {
-            if let (Some(h), Some(l)) = (hex_val(val[i + 1]), hex_val(val[i + 2])) {
-                let ch = h * 16 + l;
-                if !(ch < 128 && q.protected_table.bit_at(ch)) {
-                    out.push(ch);
-                    any = true;
-                    i += 3;
-                    continue;
-                }
-            }
-        }
-        out.push(val[i]);
-        i += 1;
-    }
-    (out, any)
-}
-
+/// BOUNDED harnesses: Quoter::requote against the reference "decode every valid, non-protected %XY and
+/// nothing else; None iff nothing was decoded", for EVERY byte string of the given length.  The reference is
+/// evaluated on the fly (no allocation on the specification side).
 macro_rules! requote_bounded {
     ($name:ident, $n:expr) => {
-        /// BOUNDED: Quoter::requote against the reference decoder for every byte string of this length
         #[kani::proof]
-        #[kani::unwind(8)]
+        #[kani::unwind(7)]
         fn $name() {
             let q = Quoter::new(b"", b"%/+");
             let buf: [u8; $n] = kani::any();
             let got = q.requote(&buf);
-            let (want, any) = spec_requote(&q, &buf);
+            let mut i = 0usize;
+            let mut j = 0usize;
+            let mut any = false;
+            while i < $n {
+                let mut expect = buf[i];
+                let mut step = 1;
+                if buf[i] == b'%' && i + 2 < $n {
+                    if let (Some(h), Some(l)) = (hex_val(buf[i + 1]), hex_val(buf[i + 2])) {
+                        let ch = h * 16 + l;
+                        if !(ch < 128 && q.protected_table.bit_at(ch)) {
+                            expect = ch;
+                            step = 3;
+                            any = true;
+                        }
+                    }
+                }
+                if let Some(v) = &got {
+                    assert!(j < v.len());
+                    assert!(v[j] == expect);
+                }
+                i += step;
+                j += 1;
+            }
             match got {
                 None => { assert!(!any); }
-                Some(v) => {
-                    assert!(any);
-                    assert!(v == want);
-                }
+                Some(v) => { assert!(any); assert!(v.len() == j); }
             }
         }
     };
 }
 requote_bounded!(kb_requote_len3, 3);
 requote_bounded!(kb_requote_len4, 4);
+requote_bounded!(kb_requote_len5, 5);
